@@ -31,7 +31,7 @@ Mk(p, L, est, res, ms, bal, pe, de) ==
          ms |-> (ms = t), minStart |-> Missing, fstart |-> Missing, fend |-> Missing]],
      roots |-> SeqOf({c \in T : p[c] = 0}),
      resources |-> <<[expr |-> Wk8, never |-> FALSE], [expr |-> Mwf4, never |-> FALSE]>>,
-     ext |-> <<>>]
+     ext |-> <<>>, tod |-> FALSE]
 
 Init == \E p \in Shapes : \E L \in LinkSets(p) : \E est \in [T -> ESTS] : \E res \in ResMaps :
         \E ms \in 0..N : \E bal \in BOOLEAN : \E pe \in {84 * Day, 86 * Day + 540, 90 * Day + 1} : \E de \in DEFESTS :
